@@ -6,4 +6,7 @@ INVARIANT T_MaskInCallerOrder
 INVARIANT T_ReturnedCurveIsLastFit
 INVARIANT T_WithinBudget
 INVARIANT T_RejectedStayOut
+INVARIANT T_BreakpointsOnlyShrink
+INVARIANT T_ResidualsOnBreakpointsInEffect
+INVARIANT T_ReturnedCurveOnReturnedBreakpoints
 CHECK_DEADLOCK FALSE
